@@ -66,6 +66,20 @@ func main() {
 		}()
 		p = loadProg(*repo, "", *tier == "thorough")
 	}()
+	if *dump == "@entries" {
+		for _, f := range p.requestEntries() {
+			fmt.Println("entry", funcName(f))
+		}
+		var names []string
+		for f := range p.requestReachable() {
+			names = append(names, funcName(f))
+		}
+		sort.Strings(names)
+		for _, n := range names {
+			fmt.Println("reach", n)
+		}
+		return
+	}
 	if *dump != "" {
 		for _, f := range p.AllFuncs {
 			if strings.Contains(funcName(f), *dump) {
